@@ -14,7 +14,8 @@ F9 = [("f9_pump_holds", "shutdown-while-pump-holds-message", "pumpjoin"),
       ("f9_put_after_exit_check", "shutdown-while-publish-past-exit-check", "barrier"),
       ("exit_races_req", "shutdown-while-answer-in-progress:req", "anslock"),
       ("exit_races_req_deferred", "shutdown-while-answer-in-progress:req-deferred", "anslock"),
-      ("exit_races_touch", "shutdown-while-answer-in-progress:touch", "anslock")]
+      ("exit_races_touch", "shutdown-while-answer-in-progress:touch", "anslock"),
+      ("exit_races_new_topic_publish", "shutdown-while-publish-creates-topic", "gettopicguard")]
 
 
 def tree_shape(ctx):
@@ -31,6 +32,7 @@ def tree_shape(ctx):
     shape = {"barrier": fact("topicExitHead")[:3] == ["Lock", "CompareAndSwapInt32", "Unlock"],
              "anslock": fact("reqCalls")[:3] == ["RLock", "RUnlock", "popInFlightMessage"] and
                         fact("touchCalls")[:3] == ["RLock", "RUnlock", "popInFlightMessage"],
+             "gettopicguard": fact("getTopicExitGuard") == ["assign exiting := atomic.LoadInt32(&n.isExiting) == 1", "if exiting"],
              "pumpjoin": fact("tcpCloseCalls") == ["Range", "Wait"] and
                          fact("ioLoopJoin") == ["assign messagePumpDoneChan := make(chan struct{})"]}
     ctx.corr["race_model_of_tree"] = shape
